@@ -50,11 +50,17 @@ TopologyRefsLive(c) ==
 
 (* usage counters *)
 U(c, k) == IF k \in DOMAIN c.usage THEN c.usage[k] ELSE 0
+Kinds(c) == {s.kind : s \in Local(c.svcs)} \cup {"connect-proxy", "mesh-gateway", "terminating-gateway", "ingress-gateway", "api-gateway"}
 UsageAgrees(c) ==
   /\ U(c, "nodes") = Cardinality(Local(c.nodes))
   /\ U(c, "services") = Cardinality(Local(c.svcs))
   /\ U(c, "service-names") = Cardinality({s.name : s \in Local(c.svcs)})
   /\ U(c, "kvs") = c.nkv
+  \* connect instances per kind, connect-native instances, billable instances, config entries per kind (usage.go)
+  /\ \A k \in Kinds(c) \ {""} : U(c, "connect-mesh-" \o k) = Cardinality({s \in Local(c.svcs) : s.kind = k})
+  /\ U(c, "connect-mesh-connect-native") = Cardinality({s \in Local(c.svcs) : s.native})
+  /\ U(c, "billable-services") = Cardinality({s \in Local(c.svcs) : s.kind = "" /\ s.name # "consul"})
+  /\ \A k \in {e.kind : e \in c.ces} : U(c, "config-entries-" \o k) = Cardinality({e \in c.ces : e.kind = k})
 
 (* virtual IPs *)
 VipInjective(c) == \A a, b \in c.vips : a.ip = b.ip => a = b
